@@ -26,11 +26,13 @@ def run_link(ctx, replay=None, corpus_dirs=("C01", "C03")):
         for i in range(parts):
             if prop == "C11":
                 jobs.append(("close%d" % i, ["gen", "link-close", (n_exact + n_burst) // parts], ctx.seed * 1000 + 600 + i))
+                jobs.append(("forward%d" % i, ["gen", "link-forward", (n_exact + n_burst) // parts // 5], ctx.seed * 1000 + 650 + i))
                 continue
             jobs.append(("exact%d" % i, ["gen", "link-exact", n_exact // parts], ctx.seed * 1000 + i))
             jobs.append(("burst%d" % i, ["gen", "link-burst", n_burst // parts], ctx.seed * 1000 + 500 + i))
             if i == 0:
                 jobs.append(("close%d" % i, ["gen", "link-close", (n_exact // parts) // 2], ctx.seed * 1000 + 600 + i))
+                jobs.append(("forward%d" % i, ["gen", "link-forward", (n_exact // parts) // 4], ctx.seed * 1000 + 650 + i))
     total_traces, nontrivial, hashes, samples = 0, 0, set(), []
     stats = {"closes": 0, "receiver_drops": 0, "sender_drops": 0, "closed_send_errors": 0, "eos_seen": 0, "replay_ok": 0, "replay_mismatch": 0, "pred_fail": 0, "multi_frame_msgs": 0, "cancels": 0, "chunk_streams": 0,
              "port_batches": 0, "trysends": 0, "credit_frames": 0}
